@@ -81,7 +81,10 @@ impl MemoryMappedAllocator {
 
         // Round up to page size for optimal performance
         let page_size = Self::get_page_size();
-        let actual_size = (size + page_size - 1) & !(page_size - 1);
+        let actual_size = match size.checked_add(page_size - 1) {
+            Some(rounded) => rounded & !(page_size - 1),
+            None => return Err(ZiporaError::out_of_memory(size)),
+        };
 
         // Try to get from cache first
         if let Ok(mut cache) = self.region_cache.try_lock() {
